@@ -28,14 +28,29 @@ def lark_family(ex):
     return isinstance(ex, LarkError)
 
 
-def run_one(text, P):
+class Hang(Exception):
+    """the call did not come back within the watchdog's limit"""
+
+
+def run_one(text, P, limit=60):
+    """parse + transform under a watchdog (SIGALRM): a call that does not come back is reported with its input, not waited for"""
+    import signal
     from mappyfile.transformer import MapfileToDict
+    def on_alarm(signum, frame):
+        raise Hang(f"no result after {limit} s")
+    old = signal.signal(signal.SIGALRM, on_alarm)
+    signal.alarm(limit)
     t0 = time.process_time()
     try:
         d = MapfileToDict().transform(P.parse(text))
         res = ("ok", type(d).__name__)
-    except Exception as ex:
+    except Hang as ex:
         res = ("err", ex)
+    except Exception as ex:
+        res = ("err", getattr(ex, "orig_exc", None) if isinstance(getattr(ex, "orig_exc", None), Hang) else ex)   # (Lark wraps call-back exceptions)
+    finally:
+        signal.alarm(0)
+        signal.signal(signal.SIGALRM, old)
     return res, time.process_time() - t0
 
 
@@ -114,7 +129,7 @@ def explore(ctx, scale=1.0):
                     nlines = text.count("\n") + 1
                     if not (1 <= line <= nlines + 1 and col is not None and col >= 1):
                         ctx.violation("error-position", f"{type(ex).__name__} at line {line} column {col} outside the {nlines}-line text", {"text": text})
-            elif has_include and isinstance(ex, (OSError, ValueError, IndexError)):
+            elif has_include and isinstance(ex, (OSError, ValueError)):
                 ctx.count("outcome:INCLUDE line (I/O or MaxNested error is expected)")
             else:
                 ctx.violation(f"escapes:{type(ex).__name__}", f"loads raised {type(ex).__name__} ({str(ex)[:80]}) instead of a Lark parse error", {"text": text, "kind": kind})
@@ -151,6 +166,38 @@ def explore(ctx, scale=1.0):
                               {"family": name, "k": k, "text": text[:300], "seconds": dt, "previous_seconds": prev})
                 break
             prev = dt
+    # ---------------- accepted expressions with an unpaired quote / slash somewhere inside a token ----------------
+    odd = ['( "[name]" IN {O\'Brien,Smith} )', '( "[file]" = /data )', '( [a] ~ /x\\/ )', '( "[n]" = "it\'s" )', "( '[n]' = 'say \"hi' )",
+           '( [a] > 1 AND "[b]" IN {a"b,c} )', '( "%my\'var%" = 1 )', '( [p] = ./a/b )', '( length("[n]") > 2 AND [q] ~* /^a\\)/ )']
+    for e in odd:
+        for tmpl in ("CLASS\n  EXPRESSION %s\nEND", "LAYER\n  FILTER %s\nEND", "CLASS\n  TEXT %s\nEND"):
+            text = tmpl % e
+            res, dt = run_one(text, P, limit=20)
+            ctx.case(("odd-expression", text), True); ctx.count("odd-expression")
+            if res[0] == "err" and not lark_family(res[1]):
+                ctx.violation(f"escapes:{type(res[1]).__name__}", f"{type(res[1]).__name__} ({str(res[1])[:60]}) on an expression with an unpaired quote / slash inside a token", {"text": text})
+            elif dt > 1.0 + 0.004 * len(text):
+                ctx.violation("slow", f"{dt:.2f} s CPU for a {len(text)}-character expression", {"text": text, "seconds": dt})
+    # ---------------- every short token sequence over a representative alphabet (what sits at the very start of the input:
+    # the re-typing hook and the error handler look back at the parser's stacks, which are nearly empty there) ----------------
+    import itertools
+    alpha = ["MAP", "LAYER", "CLASS", "STYLE", "SYMBOL", "symbol", "GRID", "grid", "END", "NAME", "TYPE", "FEATURE", "POINTS", "IMAGEMODE", "OUTPUTFORMAT",
+             "PROJECTION", "METADATA", "PATTERN", "CONFIG", "INCLUDE", "CLASSITEM", "foo", "circle", '"x"', "1", "2.5", "[a]", "(", "/re/", "AUTO", "#c\n", "/*c*/", "{", ","]
+    seqs = [(a,) for a in alpha] + list(itertools.product(alpha, repeat=2))
+    triples = list(itertools.product(alpha, repeat=3))
+    seqs += triples if ctx.thorough else rng.sample(triples, int(4000 * scale))
+    if ctx.thorough:
+        seqs += [tuple(rng.choice(alpha) for _ in range(4)) for _ in range(int(20000 * scale))]
+    for sq in seqs:
+        text = " ".join(sq)
+        res, dt = run_one(text, P, limit=20)
+        ctx.case(("short", text), res[0] == "err"); ctx.count(f"short-sequence:{len(sq)}")
+        if res[0] == "err" and not lark_family(res[1]) and not ("include" in text.lower() and isinstance(res[1], (OSError, ValueError))):
+            ctx.violation(f"escapes:{type(res[1]).__name__}", f"loads raised {type(res[1]).__name__} ({str(res[1])[:60]}) on the {len(sq)}-token input {text!r}", {"text": text})
+        elif res[0] == "err" and type(res[1]).__name__ in ("UnexpectedToken", "UnexpectedCharacters"):
+            line, col = getattr(res[1], "line", None), getattr(res[1], "column", None)
+            if line is not None and line >= 1 and not (line <= text.count("\n") + 2 and col is not None and col >= 1):
+                ctx.violation("error-position", f"{type(res[1]).__name__} at line {line} column {col} outside the text {text!r}", {"text": text})
     # ---------------- the 19 block types at the root ----------------
     for t in gen.BLOCK_TYPES:
         for text in (f"{t.upper()} END", f"{t.lower()}\nend", f"{t.upper()} END {t.upper()} END"):
